@@ -55,7 +55,11 @@ def main():
         ddir = os.path.join(wt, demo_dir)
         for d in demos:
             shutil.copy(os.path.join(src, d), os.path.join(ddir, "zz_seed_" + d))
-        race = "-race" if meta.get("race") or "race" in " ".join(meta.get("commands", [])) else ""
+        cmds = " ".join(meta.get("commands", []))
+        race = "-race" if meta.get("race") or "-race" in cmds else ""
+        import re as _re
+        mt = _re.search(r"-tags[ =](\w+)", cmds)
+        if mt: race += " -tags " + mt.group(1)
         rc1, out1 = sh(f"go test {race} -count=1 ./{demo_dir}/ 2>&1 | tail -40", cwd=wt, timeout=1200)
         failed_with = ("FAIL" in out1) or ("panic:" in out1)
         rec["demo_fails_with_change"] = failed_with
